@@ -52,7 +52,32 @@ func TestSchemes(t *testing.T) {
 		if maxN > 6 {
 			fullUpTo, nSub = 6, 48
 		}
-		c, field := drawCase(t, test, maxN, o, fullUpTo, nSub, regimes...)
+		// low-weight tail of larger policies (see bigPolicy): Shamir / additive / Tassa need no 2^N
+		// enumeration and go up to 33 holders; Feldman / Pedersen (span-programme read-out, group
+		// operations per subset) up to 16; ISN deals one piece per maximal unqualified set (C(n,t-1)
+		// for a threshold policy) and keys them by 64-bit sets, so it only goes from 5 to 9 holders.
+		var big *policy.Policy
+		switch scheme {
+		case "shamir", "additive", "tassa":
+			// Tassa: top threshold <= 9 keeps alpha(k+1)(N+1)^(k(k-1)/2) < q/2 for IDs <= 64
+			big = bigPolicy(t, 12, o.Families, []int{9, 12, 13, 16, 17, 33}, 9, false)
+			nSub = 24
+		case "feldman", "pedersen":
+			big = bigPolicy(t, 16, []string{policy.Threshold, policy.Hier, policy.Gate, policy.CNF}, []int{9, 12, 16}, 9, o.AllowSolo)
+			nSub = 8
+		case "isn":
+			if rapid.IntRange(1, 10).Draw(t, "isnMore") == 10 {
+				maxN, fullUpTo, nSub = 9, 6, 32
+			}
+		}
+		var c *pcase
+		var field string
+		if big != nil {
+			c, field = caseFor(t, test, big, 6, nSub, regimes...)
+			vlib.Class(test, "generator=big-policy")
+		} else {
+			c, field = drawCase(t, test, maxN, o, fullUpTo, nSub, regimes...)
+		}
 		e := envs[field]
 		if scheme == "isn" && c.p.SingletonQualified() {
 			// known finding: ISN derives its shareholders from the union of the maximal unqualified
@@ -128,9 +153,11 @@ func drawHierIDs(t *rapid.T, p *policy.Policy) (ids []uint64, class string, incr
 		below(^uint64(0)-2, n)
 	case "special":
 		sp := []uint64{1, 2, 63, 64, 65, 255, 256, 65535, 65536, 1<<32 - 1, 1 << 32, 1<<32 + 1, 1 << 62, 1<<63 - 1, 1 << 63, 1<<63 + 1, 1<<64 - 2, 1<<64 - 1}
-		for len(ids) < n {
+		// at most 12 special values (the list has 18): the large-policy tail has more holders
+		for len(ids) < min(n, 12) {
 			add(rapid.SampledFrom(sp).Draw(t, "sp"))
 		}
+		below(^uint64(0), n)
 	}
 	sort.Slice(ids, func(i, j int) bool { return ids[i] < ids[j] })
 	for _, l := range p.Levels {
@@ -176,7 +203,14 @@ func TestTassaAdmission(t *testing.T) {
 		maxN = 10
 	}
 	vlib.Check(t, 4000, func(t *rapid.T) {
-		p := policy.Draw(t, policy.Opts{MaxN: maxN, Families: []string{policy.Hier}})
+		// one case in 16: 12..24 holders in up to 5 levels with the top threshold anywhere up to n,
+		// preferably at an end of its range: CheckConstraints refuses k = top threshold + 1 > 20
+		// before it evaluates (k-1)! in uint64, so 19 / 20 / 21 holders put k just below / at / above
+		// that cut (the verdict is "refuse" on either side of it: the bound fails long before)
+		p := bigPolicy(t, 16, []string{policy.Hier}, []int{12, 19, 20, 21, 22, 24}, 64, false)
+		if p == nil {
+			p = policy.Draw(t, policy.Opts{MaxN: maxN, Families: []string{policy.Hier}})
+		}
 		field := rapid.SampledFrom(fieldNames).Draw(t, "field")
 		ids, class, increasing := drawHierIDs(t, p)
 		e := envs[field]
@@ -186,7 +220,11 @@ func TestTassaAdmission(t *testing.T) {
 		k := p.Levels[len(p.Levels)-1].T
 		if verdict > 0 && increasing && rapid.IntRange(0, 7).Draw(t, "deal?") == 0 {
 			// an admitted policy really works, whatever the size of its IDs
-			c.subsets = drawSubsets(t, p, 10)
+			if p.N > 12 {
+				c.subsets = walkSubsets(t, p, 10)
+			} else {
+				c.subsets = drawSubsets(t, p, 10)
+			}
 			e.Tassa(t, c)
 			vlib.Class(test, "dealt-after-admission")
 		}
@@ -243,6 +281,9 @@ func TestRefused(t *testing.T) {
 	vlib.Check(t, 1200, func(t *rapid.T) {
 		kind := rapid.SampledFrom(kinds).Draw(t, "kind")
 		n := rapid.IntRange(2, 6).Draw(t, "n")
+		if rapid.IntRange(1, 20).Draw(t, "moreHolders") == 20 {
+			n = rapid.SampledFrom([]int{9, 16, 17, 33}).Draw(t, "nBig") // the constructors have no size limit
+		}
 		regime := rapid.SampledFrom([]string{policy.Ordinal, policy.Sparse, policy.Large}).Draw(t, "regime")
 		base := &policy.Policy{Family: policy.Threshold, N: n, T: 2}
 		ids := policy.DrawIDs(t, base, regime)
